@@ -26,8 +26,11 @@ def plan(tier, seed):
         chunks, pops = 16, 1
     else:
         dates, chunks, pops = ds, 8, 2
-    return [dict(date=str(d), k=k, chunk=c, chunks=chunks, seed=seed, tier=tier)
-            for d in dates for k in range(pops) for c in range(chunks)]
+    items = [dict(date=str(d), k=k, chunk=c, chunks=chunks, seed=seed, tier=tier)
+             for d in dates for k in range(pops) for c in range(chunks)]
+    hist = [datetime.date(2010, 7, 1)] if tier == "quick" else [datetime.date(y, 7, 1) for y in range(1998, 2015, 2)]
+    items += [dict(date=str(d), k=0, chunk=c, chunks=4, seed=seed, tier=tier, historical=True) for d in hist for c in range(4)]
+    return items
 
 
 def _same(a, b):
@@ -49,7 +52,8 @@ def run_item(item):
     params, functions = env.environment(d)
     df = popgen.population(prng, d, n_hh=7, params=params)
     df = df.iloc[prng.permutation(len(df))].reset_index(drop=True)
-    S0, nodes, roots, dag, fn = env.trace(df, params, functions)
+    TARGETS = env.feasible_targets(functions, list(df.columns), data=df, params=params) if item.get("historical") else None
+    S0, nodes, roots, dag, fn = env.trace(df, params, functions, TARGETS)
     kinds = env.classify(fn)
     res = dict(date=item["date"], pop=popgen.digest(df), runs=0, violations=[], supplied=[],
                columns_compared=0, variants={})
@@ -117,6 +121,8 @@ def run_item(item):
         if S0[n_].dtype.kind in "ib":
             supply([n_], "other_dtype")
     for _ in range(2):
+        if len(nodes) < 2:
+            break
         a, b = (nodes[i] for i in rng.choice(len(nodes), 2, replace=False))
         supply([a, b], "pair")
     # data as a dict of Series that carry arbitrary index labels; the supplied column is taken from the result
